@@ -62,6 +62,7 @@ def shards(tier: str, seed: int):
     out.append(["hdr"])
     for part in range(4):
         out.append(["readerops", part])
+    out.append(["writerops", 6 if tier == "quick" else 7])
     return out
 
 
@@ -516,9 +517,79 @@ def pow_values():
     return sorted(vals)
 
 
+def writer_history(a, ops):
+    """run one operation sequence on real ASN1Writer objects and on the reference model; -> (library bytes | exception text, model bytes)
+    model: every writer owns a buffer; closing a child appends ONE TLV holding the child's buffer to its parent's buffer, at that moment"""
+    from ref import der
+
+    real = {0: a.ASN1Writer()}
+    model = {0: []}
+    meta = {}
+    nxt = 1
+    try:
+        for op in ops:
+            if op[0] == "open":
+                _, par, kind_ = op
+                real[nxt] = real[par].push_sequence() if kind_ == "seq" else real[par].push_set()
+                real[nxt].__enter__()
+                model[nxt] = []
+                meta[nxt] = (par, kind_)
+                nxt += 1
+            elif op[0] == "write":
+                real[op[1]].write_integer(op[2])
+                model[op[1]].append(der.enc_int(op[2]))
+            else:
+                real[op[1]].__exit__(None, None, None)
+                par, kind_ = meta[op[1]]
+                model[par].append((der.enc_seq if kind_ == "seq" else der.enc_set)(*model[op[1]]))
+        got = bytes(real[0].get_data())
+    except Exception as e:  # noqa: BLE001
+        got = f"{type(e).__name__}: {e}"
+    return got, b"".join(model[0])
+
+
+def writer_histories(depth: int):
+    """all operation sequences of length <= depth over {open seq/set under any open writer (<= 3 children in all), write the next integer to
+    any open writer, close any open child} in which every child is closed at the end and at most once"""
+
+    def rec(ops, open_, made, counter):
+        if not open_ - {0} and ops:
+            yield list(ops)
+        if len(ops) >= depth:
+            return
+        for w in sorted(open_):
+            if made < 3:
+                for kind_ in ("seq", "set"):
+                    yield from rec(ops + [("open", w, kind_)], open_ | {made + 1}, made + 1, counter)
+            yield from rec(ops + [("write", w, counter)], open_, made, counter + 1)
+            if w != 0:
+                yield from rec(ops + [("close", w)], open_ - {w}, made, counter)
+
+    yield from rec([], {0}, 0, 1)
+
+
 def run_shard(shard, tier, seed, acc) -> None:
     a = _mods()
     kind = shard[0]
+    if kind == "writerops":
+        n = nonnested = 0
+        for ops in writer_histories(shard[1]):
+            got, want = writer_history(a, ops)
+            n += 1
+            # strictly nested = every close refers to the most recently opened writer that is still open and nothing is written to a writer
+            # while one of its children is open
+            if got != want:
+                acc.violate("writerops.bytes", ["writerops", [list(o) for o in ops]], {"got": got.hex() if isinstance(got, bytes) else got, "model": want.hex()}, size=len(ops))
+                acc.outcome("writerops-differ")
+            else:
+                acc.outcome("writerops-agree")
+            acc.set_add("writer_outputs", want)
+        acc.ev(n)
+        acc.nt_counted(n)
+        acc.states += n
+        acc.transitions += n * shard[1]
+        acc.sample({"writer operation sequences": n, "depth": shard[1], "example": [list(o) for o in ops]})
+        return
     if kind == "int":
         lo, hi = shard[1], shard[2]
         bad = 0
@@ -727,6 +798,13 @@ def replay(case, seed, acc) -> None:
     if k == "readerops":
         _report(acc, case_readerops(a, case[1]), case)
         acc.ev()
+        return
+    if k == "writerops":
+        ops = [tuple(o) for o in case[1]]
+        got, want = writer_history(a, ops)
+        acc.ev()
+        if got != want:
+            acc.violate("writerops.bytes", case, {"got": got.hex() if isinstance(got, bytes) else got, "model": want.hex()})
         return
     if k == "int":
         _report(acc, case_int(a, int(case[1])), case)
